@@ -844,6 +844,8 @@ func (o *operation) drainBody(body io.ReadCloser) {
 	_, _ = io.CopyBuffer(io.Discard, body, b)
 }
 
+var errUnaryRequestHasMultipleMessages = errors.New("request has more than one message, but the method takes exactly one")
+
 // envelopingReader will translate between envelope styles as data is read.
 // It does not do any decompressing or deserializing of data.
 type envelopingReader struct {
@@ -976,6 +978,11 @@ func (r *envelopingReader) prepareNext() error {
 		if err == nil && env.compressed && r.rw.op.client.reqCompression == nil {
 			err = errors.New("message is marked compressed but the request declares no compression")
 		}
+		if err == nil && r.current != nil && r.rw.op.serverEnveloper == nil && !r.rw.op.methodConf.descriptor.IsStreamingClient() {
+			// Without envelopes the body handed to the server is exactly one message;
+			// appending another one would corrupt it.
+			err = errUnaryRequestHasMultipleMessages
+		}
 		if err != nil {
 			err = malformedRequestError(err)
 			r.rw.reportErrorFromReader(err)
@@ -1058,6 +1065,14 @@ func (r *transformingReader) Read(data []byte) (n int, err error) {
 				r.err = err
 				return 0, err
 			}
+		} else if r.consumedFirst && r.rw.op.clientEnveloper != nil && r.rw.op.serverEnveloper == nil &&
+			!r.rw.op.methodConf.descriptor.IsStreamingClient() {
+			// Without envelopes the body handed to the server is exactly one message;
+			// appending another one would corrupt it.
+			err := malformedRequestError(errUnaryRequestHasMultipleMessages)
+			r.err = err
+			r.rw.reportErrorFromReader(err)
+			return 0, err
 		}
 		if err := r.prepareMessage(); err != nil {
 			r.err = err
